@@ -68,6 +68,15 @@ func RunCase(c Case) ([]Line, error) {
 		}
 		return st, nil
 	}
+	blocksAll := func() (BlkMap, error) {
+		var names []string
+		for _, l := range c.Ledgers {
+			if created[l.Name] {
+				names = append(names, l.Name)
+			}
+		}
+		return env.BlocksOf(names)
+	}
 	if err := createDue(0); err != nil {
 		return nil, err
 	}
@@ -99,6 +108,24 @@ func RunCase(c Case) ([]Line, error) {
 			lines = append(lines, aux)
 		}
 		op.Norm()
+		if op.K == "blocks" {
+			// the async block builder runs to completion (C34): an auxiliary line, the ledgers must not change
+			if r := env.RunBlocks(ctx, "w1", op.ID); !r.OK {
+				return nil, &Inconclusive{Msg: "block runner: " + r.Msg}
+			}
+			st, err := observeAll()
+			if err != nil {
+				return nil, obsFailure(env, err)
+			}
+			blk, err := blocksAll()
+			if err != nil {
+				return nil, &Inconclusive{Msg: "observing blocks: " + err.Error()}
+			}
+			aux := Line{Case: c.N, Aux: true, St: st, Blk: blk, Quiet: true}
+			aux.Op.L = op.L
+			lines = append(lines, aux)
+			continue
+		}
 		_, cm0 := env.PG.Counters()
 		res := env.Exec(ctx, "w1", op)
 		_, cm1 := env.PG.Counters()
@@ -113,7 +140,11 @@ func RunCase(c Case) ([]Line, error) {
 		if err != nil {
 			return nil, obsFailure(env, err)
 		}
-		lines = append(lines, Line{Case: c.N, Op: op, Res: res, St: st, Ev: evs})
+		blk, err := blocksAll()
+		if err != nil {
+			return nil, &Inconclusive{Msg: "observing blocks: " + err.Error()}
+		}
+		lines = append(lines, Line{Case: c.N, Op: op, Res: res, St: st, Ev: evs, Blk: blk})
 	}
 	if c.FeatureReads && len(lines) > 0 {
 		last := &lines[len(lines)-1]
